@@ -178,9 +178,11 @@ void Stats::processMsg(int sockfd) {
     // Every way out of this function, including the early return on a read
     // error or timeout, has to give the thread slot back: ~Stats waits for the
     // count to reach zero and aborts the process if it never does.
-    std::unique_lock<std::mutex> lock(thread_mutex_);
+    // Notify while still holding the mutex: once ~Stats sees the count at zero
+    // it destroys the condition variable, so this detached thread must not
+    // touch it after the waiter has been allowed to run.
+    std::lock_guard<std::mutex> lock(thread_mutex_);
     thread_count_--;
-    lock.unlock();
     thread_exited_.notify_one();
   };
   char mode = 'a';
